@@ -219,7 +219,15 @@ class Sim:
         for c in self.checkers:
             fn = getattr(c, name, None)
             if fn is not None:
-                for v in fn(self, rec) or ():
+                try:
+                    vs = fn(self, rec) or ()
+                except (Discard, HarnessError):
+                    raise
+                except Exception as e:  # a bug in an oracle must never look like a tdgl error
+                    import traceback
+
+                    raise HarnessError(f"checker {type(c).__name__}.{name} raised {type(e).__name__}: {e}\n{traceback.format_exc()}")
+                for v in vs:
                     self.violations.append(v)
 
     # ------------------------------------------------------------------ fault plumbing
@@ -253,7 +261,7 @@ class Sim:
             if f["kind"] != "refuse":
                 continue
             at = f["at"]
-            if at.get("stage", "S") == self.stage and at["step"] == step and attempt in at["attempts"]:
+            if at.get("stage", "S") == self.stage and at["step"] == step and attempt in at["attempts"] and at.get("iter", 0) == (self.cur["n_screen"] if self.cur else 0):
                 if not f["_fired"]:
                     f["_fired"] = True
                     self.h.faults_fired.append({k: v for k, v in f.items() if not k.startswith("_")})
